@@ -14,7 +14,7 @@ import tempfile
 
 from sim import factory
 from sim.choices import payload
-from sim.kernel import (LivenessViolation, NullOut, Pipe, SimClock, SimDeadlock, SimRaw, SimSocket,
+from sim.kernel import (ClockSeam, LivenessViolation, NullOut, Pipe, SimClock, SimDeadlock, SimRaw, SimSocket,
                         StepBudgetExceeded, World)
 from sim.runner import Outcome
 
@@ -47,7 +47,7 @@ EXPECTED_PROBES = ("b_in_prefix", "b_in_header", "b_at_header_end", "b_in_body",
                    "max_packet", "trim_taken", "genuine_trim_taken")
 
 BIG_DEN = 40_000
-SOURCES = [(4, "bytes"), (6, "file"), (2, "bytesio"), (7, "socket"), (1, "realfile"), (1, "gzipfile")]
+SOURCES = [(4, "bytes"), (6, "file"), (2, "bytesio"), (7, "socket"), (1, "realfile"), (1, "gzipfile"), (2, "pipefile")]
 SRC_NAMES = [s for _, s in SOURCES]
 
 _packets = factory.import_library()          # import only; nothing of the library is called before fork
@@ -137,7 +137,7 @@ def run(ch, render=False):
     wsizes = "all"
     take_mode = "all"
     delay_mode = 0
-    if src == "file":
+    if src in ("file", "pipefile"):
         bufsize = ch.pick((8192, 1, 2, 7, 16, 4096, 65536, 100), "bufsize")
         short_mode = ch.pick(("full", "drawn", "one"), "short")
         if big:
@@ -222,7 +222,7 @@ def run(ch, render=False):
         os.close(fd)
         fobj = open(tmp_path, "rb")
         source = fobj
-    elif src == "file":
+    elif src in ("file", "pipefile"):
         def short(possible, _m=short_mode):
             if _m == "full":
                 return possible
@@ -233,8 +233,10 @@ def run(ch, render=False):
             if n_ < possible:
                 w.fault("short_raw_read")
             return n_
-        raw = SimRaw(w, stream, short=short)
+        raw = SimRaw(w, stream, short=short, seekable=(src == "file"))      # pipefile: a pipe / FIFO / stdin-like stream
         source = io.BufferedReader(raw, buffer_size=bufsize)
+        if src == "pipefile":
+            w.probe("non_seekable_file")
     else:  # socket
         pipe = Pipe(w)
 
@@ -282,7 +284,6 @@ def run(ch, render=False):
         source = sock
 
     # ---- knobs: trim threshold clone, simulated clock, captured stdout ------------------
-    saved_time = pk.time
     saved_stdout = sys.stdout
     clk = None
     if progress:
@@ -297,21 +298,29 @@ def run(ch, render=False):
             w.fault("clock_forward")
         else:
             clk = SimClock(w)
-        pk.time = clk
         sys.stdout = NullOut()
+    seam = ClockSeam(pk, clk) if clk is not None else None
+    if seam is not None:
+        seam.__enter__()
+        if not seam.installed:
+            w.probe("clock_seam_unavailable")
     got = []
     err = None
     extra = None
     stopped = False
     knob_active = False
+    tk = factory.TrimKnob(pk, knob)
+    gen = None
     try:
-        with factory.TrimKnob(pk, knob) as tk:
-            knob_active = tk.active
-            kwargs = dict(buffer_read_size_bytes=rs, show_progress=progress, skip_header_bytes=k)
-            if consumer == "ccsds_generator":
-                gen = pk.ccsds_generator(source, **kwargs)
-            else:
-                gen = _defn.packet_generator(source, ccsds_headers_only=True, **kwargs)
+        # the knob stays installed for the whole run: packet_generator looks the framer up (module attribute
+        # packets.ccsds_generator) only when it is first advanced
+        tk.__enter__()
+        knob_active = tk.active
+        kwargs = dict(buffer_read_size_bytes=rs, show_progress=progress, skip_header_bytes=k)
+        if consumer == "ccsds_generator":
+            gen = pk.ccsds_generator(source, **kwargs)
+        else:
+            gen = _defn.packet_generator(source, ccsds_headers_only=True, **kwargs)
         w.ev("consumer", "start", src, consumer)
         try:
             for i in range(len(pkts)):
@@ -335,10 +344,12 @@ def run(ch, render=False):
         finally:
             try:
                 gen.close()
-            except BaseException:
+            except Exception:
                 pass
     finally:
-        pk.time = saved_time
+        tk.__exit__(None, None, None)
+        if seam is not None:
+            seam.__exit__(None, None, None)
         sys.stdout = saved_stdout
         if sock is not None:
             sock.close()
@@ -354,7 +365,7 @@ def run(ch, render=False):
             if e[2] == "sock" and e[3] == "recv":
                 c += e[4]
                 boundaries.append(c)
-    elif src in ("file", "bytesio", "realfile", "gzipfile") and isinstance(rs, int) and rs > 0 and not big:
+    elif src in ("file", "pipefile", "bytesio", "realfile", "gzipfile") and isinstance(rs, int) and rs > 0 and not big:
         boundaries = list(range(rs, total + 1, rs))
     elif big and isinstance(rs, int):
         boundaries = list(range(rs, total + 1, rs))
